@@ -22,6 +22,9 @@ CLAIMED = {
  "C05": ("deterministic simulation: seeded (sequence number, arrival time) histories from a faulty link, arbitrarily interleaved builds; interceptor path under the simrt scheduler; independent wire decoder + record-log oracle",
          "Seeded exploration of twcc.Recorder (direct, incl. non-monotone arrival clocks) and of the real twcc.SenderInterceptor (reader goroutine, hand-off channel, ticker on the fake clock, failing reader): loss bursts, duplicates, reordering before/after a build, jumps across the 2^16 wrap and beyond 2^15, arrival gaps up to an hour (delta overflow, negative deltas, 64 ms reference rounding). Every emitted feedback is marshalled and decoded by an independent decoder written from the draft (length, padding, one status per number, one delta per received status; pion's Unmarshal must agree), then compared with the record log: received => a recorded first-copy arrival within 125us mod 2^24*64ms; not received => every record of that number could legitimately have left the 500 ms history; everything recorded since the previous build is reported; ranges of one build consecutive; feedback counter +1 per packet.",
          "Trusted: the independent decoder and record-log model; a gap between packets of one build is accepted only when more than 0x7FFE numbers are missing (the format cannot describe them); a duplicate is retained/forgotten with its first copy. Sampling, not proof.", "DESIGN.md §5 C05"),
+ "C08": ("deterministic simulation: seeded arrival histories over 1-5 SSRCs from a faulty link, report builds placed anywhere with any maximum size; interceptor path under the simrt scheduler with clock jumps; independent RFC 8888 decoder + reference stream model",
+         "Seeded exploration of rfc8888.Recorder.BuildReport (direct, all maximum sizes incl. ones that cannot hold the headers, report clock before/after arrival clock) and of the real rfc8888.SenderInterceptor (reader goroutine, unbuffered hand-off, ticker on the fake clock, SenderNow with jumps, failing reader): loss, reordering, duplicates, wrap, gaps up to 70 s. Each report is marshalled, decoded by an independent decoder written from RFC 8888 (pion's Unmarshal must agree) and compared per stream with a reference model: contiguous range ending at the highest received number, received <=> first copy arrived and not yet acknowledged in a gap-free prefix, offset = floor(1024 x (report - first arrival)) by exact integer arithmetic with 0x1FFE/0x1FFF, never received->lost, omissions only as truncation by the size limit (newest kept), marshalled size <= maximum whenever it can hold the per-stream headers.",
+         "Trusted: the independent decoder and the reference model; an offset one unit low is accepted only when 1024 x elapsed is an exact integer (float floor); a stream's outstanding packets may be dropped when its equal share of the budget is at most one report. Sampling, not proof.", "DESIGN.md §5 C08"),
 }
 NA = {
  "C20": "pure single-threaded functions of their inputs (sequence unwrapping, NTP conversion): no schedule, clock, fault, I/O or second party for a simulator to control; deciding them is input enumeration/property-based testing, a different technique (they run as real code inside the C05/C07/C08/C09/C19 scenarios).",
